@@ -784,3 +784,20 @@ pub mod completion {
     }
   }
 }
+
+/// Verification hooks (only compiled with `--cfg samlang_verif`): thin wrappers that expose
+/// crate-private functions to the harness in /verif. They add no behaviour.
+#[cfg(samlang_verif)]
+pub mod verif {
+  use samlang_ast::source::Module;
+  use samlang_heap::ModuleReference;
+  use std::collections::{HashMap, HashSet};
+
+  /// `DependencyGraph::new(sources).affected_set(dirty)`
+  pub fn affected_set(
+    sources: &HashMap<ModuleReference, Module<()>>,
+    dirty: HashSet<ModuleReference>,
+  ) -> HashSet<ModuleReference> {
+    super::dep_graph::DependencyGraph::new(sources).affected_set(dirty)
+  }
+}
